@@ -44,7 +44,7 @@ for _p in ("C09", "C10"):
 TECH["C16"] = _B + "; plus a TLAPS proof, for any number of items, that the loop of inserts keeps the last value and the first key object per key and that repeats consume no capacity (spec/MapProofBulk.tla)"
 TECH["C14"] = _B + "; plus a TLAPS proof, for operands of any size and slot order, that == as written in eq.rs holds exactly when both hold the same pairs (spec/MapProofEq.tla)"
 TECH["C08"] = _B + "; plus a TLAPS proof, for operands of any size, that the filtered-slot-iterator loop behind difference / intersection / union / symmetric_difference yields exactly the mathematical result without repeats and that the predicates tell the truth (spec/MapProofAlg.tla, spec/MapProofEq.tla)"
-TECH["C04"] = "callback-granular TLA+ model (MapMicro.tla) model-checked with TLC with a panic injected at every callback; every model behaviour replayed into the real crate (conformance), plus an injection sweep over the code's own callbacks"
+TECH["C04"] = "callback-granular TLA+ model (MapMicro.tla) model-checked with TLC with a panic injected at every callback; every model behaviour replayed into the real crate (conformance), plus an injection sweep over the code's own callbacks; plus a TLAPS proof for any capacity that the live prefix is well-formed after every step at which user code can run (spec/MapProofPanic.tla)"
 TECH["C17"] = "callback-granular TLA+ model (MapMicro.tla, adversarial Eq) model-checked with TLC over every outcome of every key comparison; every model path replayed into the real crate with a scripted Eq (conformance), plus enumeration of the code's own decision tree; debug, release and AddressSanitizer builds; plus a TLAPS proof for any capacity that under arbitrary scan outcomes every slot index used stays inside the live prefix / capacity (spec/MapProofAdv.tla)"
 NOTE = "exhaustive within the TLC constants recorded in the evidence (capacities 0..2 quick, plus 3 thorough; 3-4 key classes; 2 distinguishable key objects per class; 2 value contents); trace validation samples (does not exhaust) capacities up to 300; element types are the harness' instrumented plain-old-data Key/Val plus a dozen other element shapes (zero-sized with and without destructor, Copy, heap-owning, mixed drop glue, large, wide key, Clone without Drop, distinguishable equal keys, PathBuf probed by &Path, containers of 80-130 KiB) for the equality-visible part; TLC, rustc and std trusted; the harness holds no model logic, all expected values come from TLC's emitted transitions"
 
@@ -76,7 +76,7 @@ def main():
         "engines": [
             {"name": "pairgraph", "path": "spec/PairSpec.tla + harness/src/pair.rs", "serves_properties": ["C06", "C08", "C14"],
              "kind_free_text": "TLC state graph of two containers with the read-only binary operations, replayed into the real crate"},
-            {"name": "symbolic", "path": "spec/MapRef.tla, spec/MapInd.tla, spec/MapDisj.tla (Apalache); spec/MapProof.tla, spec/MapProofKV.tla, spec/MapProofRetain.tla, spec/MapProofId.tla, spec/MapProofAlg.tla, spec/MapProofEq.tla, spec/MapProofDisj.tla, spec/MapProofBulk.tla, spec/MapProofAdv.tla (TLAPS)", "serves_properties": ["C01", "C03", "C05", "C07", "C08", "C09", "C10", "C12", "C13", "C14", "C16", "C17", "C18"],
+            {"name": "symbolic", "path": "spec/MapRef.tla, spec/MapInd.tla, spec/MapDisj.tla (Apalache); spec/MapProof.tla, spec/MapProofKV.tla, spec/MapProofRetain.tla, spec/MapProofId.tla, spec/MapProofAlg.tla, spec/MapProofEq.tla, spec/MapProofDisj.tla, spec/MapProofBulk.tla, spec/MapProofAdv.tla, spec/MapProofPanic.tla (TLAPS)", "serves_properties": ["C01", "C03", "C04", "C05", "C07", "C08", "C09", "C10", "C12", "C13", "C14", "C16", "C17", "C18"],
              "kind_free_text": "design-level strengthenings beyond TLC's capacities: one-step refinement of the dictionary from any well-formed state (capacities <= 24), inductive representation invariant (<= 32) and, by TLAPS for unbounded capacity, the invariant together with the refinement of the ideal key set / key-value map by every slot-level step, the disjoint-borrow stack algorithm for arbitrary states; run inside the named checks"},
             {"name": "micro", "path": "spec/MapMicro.tla + harness/src/micro.rs + harness/src/sweep.rs", "serves_properties": ["C04", "C08", "C14", "C17"],
              "kind_free_text": "callback-granular TLA+ model of slot memory (panic at every callback / every outcome of every key comparison), every behaviour replayed into the real crate"},
